@@ -32,6 +32,19 @@ def generate_checking_code(typ):
         return CodeGen("isinstance({arg}, {this})", this=typ)
 
 
+def guarded_checking_code(typ):
+    """Checking code for a member of a union or intersection.
+
+    Unlike a whole annotation, a member may be evaluated on a value that is
+    not an instance of its bound.
+    """
+    cg = generate_checking_code(typ)
+    if isinstance(typ, DependentType):
+        bound = CodeGen("isinstance({arg}, {bound})", bound=typ.bound)
+        return combine("{} and {}", [bound, cg])
+    return cg
+
+
 class CodeGen:
     def __init__(self, template, substitutions={}, **substitutions_kw):
         self.template = template
